@@ -133,11 +133,18 @@ func MultiPolygon(box orb.Bound, mp orb.MultiPolygon, o orb.Orientation) orb.Mul
 	outers, closedOuters := clipRings(box, outerRings)
 	if len(outers) == 0 {
 		// nothing was clipped
-		if len(closedOuters) == 0 {
-			return nil // everything outside bound
+		if len(closedOuters) == len(mp) {
+			return mp // everything inside bound
 		}
 
-		return mp // everything inside bound
+		// every polygon is either inside, outside or around the bound,
+		// so they can be handled one by one.
+		var result orb.MultiPolygon
+		for _, p := range mp {
+			result = append(result, Polygon(box, p, o)...)
+		}
+
+		return result
 	}
 
 	// inner rings
